@@ -4,6 +4,8 @@ import Driver.Plans
 import Driver.Order
 import Driver.Aggr
 import Driver.Eval
+import Driver.Parse
+import Driver.Select
 namespace Driver
-def handlers : List (List String → Option String) := [handleScan, handlePlans, handleOrder, handleAggr, handleEval]
+def handlers : List (List String → Option String) := [handleScan, handlePlans, handleOrder, handleAggr, handleEval, handleParse, handleSelect]
 end Driver
